@@ -4,7 +4,7 @@ package main
 // Decided text of the property; the rules themselves are in golints2.go, queuereset.go,
 // randlimit.go and the files of the properties).
 
-const shapeSentence = " Round 10, in the functions of the files the property is anchored in: no guard repeats the condition of an earlier guard that has already left (G1); no loop is governed by a flag that is false when the loop is reached (G2); no result of a call is overwritten before it is read (G3); every computed value that is assigned to a local can reach a read (G4); no test guards nothing - `if c { continue }` as the last statement of a round (G5); the capacity of a Go array argument is not taken for the number of its values (G6); what was computed from two operands is exchanged with them (G7); a zero-based loop over the members of a value does not start at one (G8); no two callers hand a private function the same two integer values in opposite order (G9); an unconditional loop over a fresh iterator does not take a value in its first round before anything has asked for one (G10); no `break` that ends a case of a switch stands in a loop it was meant to leave (G11)."
+const shapeSentence = " Round 10, in the functions of the files the property is anchored in: no guard repeats the condition of an earlier guard that has already left (G1); no loop is governed by a flag that is false when the loop is reached (G2); no result of a call is overwritten before it is read (G3); every computed value that is assigned to a local can reach a read (G4); no test guards nothing - `if c { continue }` as the last statement of a round (G5); the capacity of a Go array argument is not taken for the number of its values (G6); what was computed from two operands is exchanged with them (G7); a zero-based loop over the members of a value does not start at one (G8); no two callers hand a private function the same two integer values in opposite order (G9); an unconditional loop over a fresh iterator does not take a value in its first round before anything has asked for one (G10); no `break` that ends a case of a switch stands in a loop it was meant to leave (G11); a value of the element type is not asked whether it is \"defined\" (G12); a deferred function that recovers raises what it caught again (G13); position zero of a zero-based search is a hit (G14); a counter field that is stepped up and down is left as it was found on every normal exit (G15)."
 
 var round10Decided = map[string]string{
 	"C01": shapeSentence,
